@@ -1173,6 +1173,53 @@ pub fn verif_rpc_methods(engine: BRC20ProgEngine) -> jsonrpsee::Methods {
     RpcServer { engine }.into_rpc().into()
 }
 
+/// Same table, plus `verif_probe`: table-level reads for the verification harness.
+/// params: {"latest": [[table, keyhex], ...], "ranges": [[table, lohex, hihex], ...],
+///          "rows": [[table, n], ...]}
+#[cfg(feature = "verif")]
+pub fn verif_rpc_methods_with_probe(engine: BRC20ProgEngine) -> jsonrpsee::Methods {
+    let mut module = RpcServer { engine }.into_rpc();
+    module
+        .register_method("verif_probe", |params, server, _| {
+            let p: serde_json::Value = params.parse().unwrap_or(serde_json::Value::Null);
+            let hexs = |v: &serde_json::Value| hex::decode(v.as_str().unwrap_or("")).unwrap_or_default();
+            let out = server.engine.verif_with_db(|db| {
+                let mut latest = Vec::new();
+                for e in p["latest"].as_array().cloned().unwrap_or_default() {
+                    let r = db.verif_latest(e[0].as_str().unwrap_or(""), &hexs(&e[1]))?;
+                    latest.push(r.map(hex::encode));
+                }
+                let mut ranges = Vec::new();
+                for e in p["ranges"].as_array().cloned().unwrap_or_default() {
+                    let r = db.verif_range(e[0].as_str().unwrap_or(""), &hexs(&e[1]), &hexs(&e[2]))?;
+                    ranges.push(
+                        r.into_iter()
+                            .map(|(k, v)| (hex::encode(k), hex::encode(v)))
+                            .collect::<Vec<_>>(),
+                    );
+                }
+                let mut rows = Vec::new();
+                for e in p["rows"].as_array().cloned().unwrap_or_default() {
+                    let r = db.verif_block_row(e[0].as_str().unwrap_or(""), e[1].as_u64().unwrap_or(0))?;
+                    rows.push(r.map(hex::encode));
+                }
+                let (height, next, max) = db.verif_heights()?;
+                Ok(serde_json::json!({"latest": latest, "ranges": ranges, "rows": rows,
+                    "height": height, "next": next, "max": max}))
+            });
+            let waiting = server.engine.verif_waiting_tx_count();
+            match out {
+                Ok(mut v) => {
+                    v["waiting"] = serde_json::json!(waiting);
+                    v
+                }
+                Err(e) => serde_json::json!({"error": e.to_string()}),
+            }
+        })
+        .expect("register verif_probe");
+    module.into()
+}
+
 fn ticker_as_bytes(ticker: &str) -> Bytes {
     let ticker_lowercase = ticker.to_lowercase();
     Bytes::from(ticker_lowercase.as_bytes().to_vec())
